@@ -172,6 +172,15 @@ pub fn stats(v: &View) -> RunStats {
     }
     let p = &mut s.probes;
     let mut bump = |k: &'static str| *p.entry(k).or_insert(0) += 1;
+    if out.plan.property == "C05" {
+        for t in &out.obs.tx {
+            if let Ok((_, st)) = wire::parse_frames(&t.payload) {
+                for k in 0..4 {
+                    s.varint_widths[k] += st.widths[k] as u64;
+                }
+            }
+        }
+    }
     for (i, fr) in v.tx_frames.iter().enumerate() {
         let Ok(frames) = fr else { continue };
         let _ = i;
@@ -687,9 +696,12 @@ pub fn evaluate(property: &str, v: &View) -> Vec<Violation> {
         "C02" => c02(v),
         "C03" => c03(v),
         "C04" => crate::oracle3::c04(v),
+        "C05" => crate::oracle4::c05(v),
         "C06" => crate::oracle2::c06(v),
         "C08" => crate::oracle2::c08(v),
+        "C11" => crate::oracle5::c11(v),
         "C12" => crate::oracle2::c12(v),
+        "C14" => crate::oracle6::c14(v),
         _ => vec![],
     }
 }
@@ -778,11 +790,27 @@ pub fn nontrivial(property: &str, v: &View, s: &RunStats) -> bool {
                 })
             })
         }
+        "C05" => {
+            // mutated bytes reached a real decoder (datagram mutation or cleartext rewrite)
+            v.out.net.delivered.iter().any(|d| d.4 == crate::net::Label::Mutated || d.4 == crate::net::Label::Injected)
+                || !v.out.obs.byz_fired.is_empty()
+        }
         "C06" => {
             // a forged / mutated / replayed datagram actually reached an endpoint
             v.out.net.delivered.iter().any(|d| d.4 != crate::net::Label::Genuine) && p("stream_eof") > 0
         }
         "C08" => s.faults_fired > 0 && (p("ack_with_gaps_sent") > 0 || p("packet_lost") > 0),
+        "C11" => {
+            // the server was actually amplification-limited (large first flight) or an
+            // unattributable datagram was answered
+            let big_flight = v.out.plan.cfg.cert_size >= 3000;
+            let replied = v.out.net.hosts.iter().find(|h| h.idx == u32::MAX).map_or(false, |a| v.out.net.log.iter().any(|r| r.dst == a.addr));
+            (big_flight && !v.out.obs.rx.is_empty()) || replied
+        }
+        "C14" => {
+            // the rewritten block reached the peer
+            !v.out.tls.tp_received.is_empty() && (v.out.plan.cfg.client.tp_rule.is_some() || v.out.plan.cfg.server.tp_rule.is_some())
+        }
         "C12" => {
             p("reset_stream_sent") + p("stop_sending_sent") + p("connection_close_sent") > 0
                 && (s.faults_fired > 0 || p("packet_lost") > 0)
